@@ -87,6 +87,7 @@ func main() {
 	cpuprof := flag.String("cpuprofile", "", "")
 	mscan := flag.Bool("metricscan", false, "static scan of metric emitting call sites (C20)")
 	stopFirst := flag.Bool("stopfirst", false, "stop at first violation outside known regions")
+	flag.StringVar(&ownProp, "prop", "", "property being decided: assertions whose id prefix (C01-C02.) does not name it are neither checked nor assumed")
 	flag.Parse()
 	if *mscan {
 		metricScan(*dir, *out)
